@@ -1,0 +1,33 @@
+//go:build verif
+
+package openflow13
+
+import "sort"
+
+// Verification hooks (build tag "verif" only). Add-only: nothing here is
+// compiled into a normal build and no existing line is touched.
+
+// VerifRegisteredFieldNames returns the names registered in the (unexported)
+// match-field registry, sorted.
+func VerifRegisteredFieldNames() []string {
+	names := make([]string, 0, len(oxxFieldHeaderMap))
+	for k := range oxxFieldHeaderMap {
+		names = append(names, k)
+	}
+	sort.Strings(names)
+	return names
+}
+
+// VerifRegistryEntry returns a copy of the stored registry entry for name.
+func VerifRegistryEntry(name string) (class uint16, field uint8, length uint8, hasMask bool, ok bool) {
+	f, found := oxxFieldHeaderMap[name]
+	if !found {
+		return 0, 0, 0, false, false
+	}
+	return f.Class, f.Field, f.Length, f.HasMask, true
+}
+
+func VerifEncodeOfsNbits(ofs, nBits uint16) uint16         { return encodeOfsNbits(ofs, nBits) }
+func VerifEncodeOfsNbitsStartEnd(start, end uint16) uint16 { return encodeOfsNbitsStartEnd(start, end) }
+func VerifDecodeOfs(ofsNbits uint16) uint16                { return decodeOfs(ofsNbits) }
+func VerifDecodeNbits(ofsNbits uint16) uint16              { return decodeNbits(ofsNbits) }
